@@ -1323,7 +1323,63 @@ func (c *bctx) define(name string, rhs ast.Expr, out *strings.Builder, ind strin
 // that mutates its receiver and/or may panic: the results are bound by a `let` or, when the callee may
 // panic, by a `match` whose `some` arm is the rest of the function (so it is only possible where the
 // rest of the function is the continuation: not in a branch that joins, not in a loop body).
+// bindFuncCall: a call of a package-level function of the source that may panic (a helper the source
+// factored out, e.g. a validation), bound like a panicking method call
+func (c *bctx) bindFuncCall(name, fn string, x *ast.CallExpr, out *strings.Builder, ind string) bool {
+	key := bookFnKey{"", fn}
+	if _, isExt := bookExtFuncs[fn]; isExt {
+		return false
+	}
+	if fd, _ := c.b.findDecl(key); fd == nil {
+		return false
+	}
+	info := c.b.translate(key)
+	if info == nil || !info.ok || !info.mayPanic {
+		return false
+	}
+	if len(info.ptrParams) > 0 {
+		c.bad(x, "call of a function that mutates pointer parameters")
+		return true
+	}
+	var args []string
+	for _, a := range x.Args {
+		s, _ := c.expr(a)
+		args = append(args, "("+s+")")
+	}
+	app := "(" + info.callee() + " " + strings.Join(args, " ") + ")"
+	pat := "_"
+	if info.ret != nil {
+		pat = name
+	}
+	if c.noBind > 0 {
+		c.bad(x, "call of a function that may panic inside a joining branch or a loop")
+		return true
+	}
+	c.mayPanic = true
+	if c.curK == nil || c.curK.pan == nil {
+		c.bad(x, "call of a function that may panic where a panic cannot be yielded")
+		return true
+	}
+	if info.exc != c.exc {
+		c.bad(x, "call of a function that may panic and was translated with the other panic convention")
+		return true
+	}
+	if c.exc {
+		ev := c.fresh("e")
+		fmt.Fprintf(out, "%smatch %s with\n%s| .panic %s => %s\n%s| .ok %s =>\n", ind, app, ind, ev, c.curK.pan(ev), ind, pat)
+	} else {
+		fmt.Fprintf(out, "%smatch %s with\n%s| none => %s\n%s| some %s =>\n", ind, app, ind, c.curK.pan(""), ind, pat)
+	}
+	if info.ret != nil && name != "_" {
+		c.vars[name] = &bvar{ty: info.ret}
+	}
+	return true
+}
+
 func (c *bctx) bindCall(name string, x *ast.CallExpr, out *strings.Builder, ind string) bool {
+	if id, isFn := x.Fun.(*ast.Ident); isFn {
+		return c.bindFuncCall(name, id.Name, x, out, ind)
+	}
 	sel, ok := x.Fun.(*ast.SelectorExpr)
 	if !ok {
 		return false
@@ -1623,6 +1679,9 @@ func (c *bctx) stmt(st ast.Stmt, rest []ast.Stmt, k bcont, out *strings.Builder,
 				}
 			}
 			if c.isMutexCall(ce) {
+				return false
+			}
+			if _, isFn := ce.Fun.(*ast.Ident); isFn && c.bindCall("_", ce, out, ind) {
 				return false
 			}
 			if handled, _ := c.callStmt(ce, out, ind, k, false); !handled {
@@ -1960,7 +2019,8 @@ func (c *bctx) ifStmt(s *ast.IfStmt, rest []ast.Stmt, k bcont, out *strings.Buil
 			c.restoreVars(saveVars)
 			return
 		}
-		// a condition that is a call of a method that may panic (`if x.m() {` / `if !x.m() {`) is bound first
+		// a condition that is a call of a method that may panic or mutates its receiver (`if x.m() {` / `if !x.m() {`)
+		// is bound first
 		cs := ""
 		if call, neg := c.panickingCond(s.Cond); call != nil {
 			tmp := c.fresh("cond")
@@ -2064,7 +2124,7 @@ func (c *bctx) panickingCond(e ast.Expr) (*ast.CallExpr, bool) {
 		return nil, false
 	}
 	info := c.b.translate(key)
-	if info == nil || !info.ok || !info.mayPanic {
+	if info == nil || !info.ok || !(info.mayPanic || info.mutRecv || len(info.ptrParams) > 0) {
 		return nil, false
 	}
 	return ce, neg
